@@ -103,7 +103,7 @@ class World:
                     n["blocked"].append((app, gen))
                     return "blocked"
                 if ev is not None and ev[0] == "step" and n["ex"]._pending_epr_responses:
-                    n["ex"]._handle_pending_epr_responses()
+                    self.poll(n)
             return "done"
         except hc.StepLimit:
             return "bound"
@@ -112,6 +112,39 @@ class World:
         except Exception as exc:
             n["faults"] = n.get("faults", 0) + 1
             return f"fault:{type(exc).__name__}"
+
+    def poll(self, n, resp=None):
+        """The link layer hands a response to the executor (or the driver re-polls the pending ones). A hand-over may fail loudly -
+        the response belongs to a request of a program that slipped - and the link layer, which is told by the exception, polls
+        again and takes back the memory positions of responses the executor has given up on. What may not happen: a response
+        that CAN be handed over (its own request is alive, its qubit id free) stays behind because another one fails."""
+        ex = n["ex"]
+        errors = []
+        for attempt in range(len(ex._pending_epr_responses) + 3):
+            first = resp is not None and attempt == 0
+            before = list(ex._pending_epr_responses) + ([resp] if first else [])
+            try:
+                if first:
+                    ex._handle_epr_response(resp)
+                else:
+                    ex._handle_pending_epr_responses()
+                break
+            except InvariantBroken:
+                raise
+            except Exception as exc:
+                errors.append(type(exc).__name__)
+                mapped = {p for um in ex._qubit_unit_modules.values() for p in um if p is not None}
+                for r in before:
+                    pos = getattr(r, "logical_qubit_id", None)
+                    if pos is not None and pos not in mapped and not any(r is x for x in ex._pending_epr_responses):
+                        ex._used_physical_qubit_addresses.discard(pos)
+                        ex.inflight_phys.discard(pos)
+        if errors:
+            n["poll_faults"] = n.get("poll_faults", 0) + len(errors)
+        stuck = deliverable_but_pending(ex)
+        if stuck and not n.get("stuck"):
+            n["stuck"] = (stuck, errors)
+        return errors
 
     def resume(self, node):
         n = self.nodes[node]
@@ -135,14 +168,9 @@ class World:
         resp = ql.LinkLayerOKTypeK(type=ql.ReturnType.OK_K, create_id=n["rid"], logical_qubit_id=phys, directionality_flag=1,
                                    sequence_number=n["rid"], purpose_id=socket, remote_node_id=9, goodness=1, goodness_time=1,
                                    bell_state=ql.BellState.PHI_PLUS)
-        try:
-            ex._handle_epr_response(resp)
-        except InvariantBroken:
-            raise
-        except Exception as exc:
-            return f"fault:{type(exc).__name__}"
+        errors = self.poll(n, resp)
         self.resume(node)
-        return "delivered"
+        return f"fault:{errors[0]}" if errors else "delivered"
 
     def deliver_early(self, node, app, v):
         """The remote side is ahead: a pair for socket (app, v) is generated, its memory position reserved and the OK message
@@ -160,14 +188,42 @@ class World:
         resp = ql.LinkLayerOKTypeK(type=ql.ReturnType.OK_K, create_id=n["rid"], logical_qubit_id=phys, directionality_flag=1,
                                    sequence_number=n["rid"], purpose_id=sock, remote_node_id=9, goodness=1, goodness_time=1,
                                    bell_state=ql.BellState.PHI_PLUS)
-        try:
-            ex._handle_epr_response(resp)
-        except InvariantBroken:
-            raise
-        except Exception as exc:
-            return f"fault:{type(exc).__name__}"
+        errors = self.poll(n, resp)
         self.resume(node)
-        return "early"
+        return f"fault:{errors[0]}" if errors else "early"
+
+
+def deliverable_but_pending(ex):
+    """The first pending keep-response whose own request is alive and whose qubit id is free - the executor should have handed it
+    over when it was last polled."""
+    from netqasm.backend.executor import OK_FIELDS
+    seen = set()
+    for r in ex._pending_epr_responses:
+        if not hasattr(r, "logical_qubit_id"):
+            continue
+        key = (r.remote_node_id, r.purpose_id)
+        if key in seen:
+            continue
+        seen.add(key)
+        queue = ex._epr_recv_requests.get(key) or []
+        if not queue:
+            continue
+        head = queue[0]
+        sub = ex._subroutines.get(head.subroutine_id)
+        if sub is None or sub.app_id not in ex._qubit_unit_modules or sub.app_id not in ex._app_arrays:
+            continue
+        app = sub.app_id
+        pair = head.tot_pairs - head.pairs_left
+        try:
+            v = ex._app_arrays[app][head.q_array_address, pair]
+            ent = ex._app_arrays[app][head.ent_results_array_address, 0:(pair + 1) * OK_FIELDS]
+        except Exception:
+            continue
+        um = ex._qubit_unit_modules[app]
+        if not isinstance(v, int) or not 0 <= v < len(um) or um[v] is not None or len(ent) != (pair + 1) * OK_FIELDS:
+            continue
+        return f"the pair for socket {r.purpose_id} of application {app} (virtual qubit {v}, memory position {r.logical_qubit_id})"
+    return None
 
 
 def sub_msg(app, text):
@@ -220,6 +276,27 @@ def do_op(w: World, op):
         tagv = 1000 * (app + 1) + op[3]
         return w.send(node, sub_msg(app, f"set R{op[3] % 16} {tagv}\nset C1 {tagv + 1}\narray 2 @{op[3] % 3}\nstore {tagv} @{op[3] % 3}[1]\n"
                                          f"ret_reg R{op[3] % 16}\nret_arr @{op[3] % 3}\n"), app)
+    if k == "recvnw":
+        # a receive request whose subroutine returns without waiting for it (the application waits in a later subroutine)
+        v = op[3]
+        sock = 10 * app + v
+        if app in w.waiting_apps(node) or (app, sock) in n["requests"]:
+            return "skip"
+        r = w.send(node, sub_msg(app, f"array 10 @7\narray 1 @8\nstore {v} @8[0]\nrecv_epr(9,{sock}) 8 7\n"), app)
+        if r == "done":
+            n["requests"].append((app, sock))
+        return r
+    if k == "recvs":
+        # a receive request whose array for the entanglement information is too short (a program slip): the pair is handed over,
+        # writing its information fails loudly - once
+        v = op[3]
+        sock = 10 * app + 9        # one socket for all of them: a response that is replayed finds the next request
+        if app in w.waiting_apps(node) or (app, sock) in n["requests"] or sock in n["early"]:
+            return "skip"
+        r = w.send(node, sub_msg(app, f"array 5 @5\narray 1 @6\nstore {v} @6[0]\nrecv_epr(9,{sock}) 6 5\nwait_all @5[0:5]\n"), app, tag=(k, v))
+        if r == "blocked":
+            n["requests"].append((app, sock))
+        return r
     if k in ("recv", "recvf"):
         v = op[3]
         sock = 10 * app + v
@@ -278,6 +355,9 @@ def check_invariants(w: World, ctx, where):
         if not pending_ids <= used:
             return (f"{where}: on {node} the memory position(s) {sorted(pending_ids - used)} reserved for a pair that has not been handed "
                     f"over yet are no longer marked in use")
+        if pending_ids & set(phys):
+            return (f"{where}: on {node} the pair at memory position(s) {sorted(pending_ids & set(phys))} has been handed over (a virtual qubit "
+                    f"maps to it) and is still among the pending responses - it will be handed over a second time")
         extra = used - set(phys)
         if not extra <= pending_ids:
             return (f"{where}: on {node} physical qubits {sorted(extra - pending_ids)} are marked in use but mapped by no virtual qubit "
@@ -340,6 +420,12 @@ def run_history(ctx, ops):
             return f"operation {i} {op}: {e}", None
         if _state["viol"]:
             return f"operation {i} {op}: {_state['viol']}", None
+        if n.get("stuck"):
+            what, errors = n["stuck"]
+            return (f"operation {i} {op}: {what} can be handed over - its request is alive and its qubit id free - but stays pending: "
+                    f"every poll of the pending responses raises {sorted(set(errors))} for a response of another request first"), None
+        if n.get("poll_faults"):
+            ctx.count("hand_overs_that_failed_loudly", n.pop("poll_faults"))
         if isinstance(res, str) and res.startswith("fault-visible:"):
             return f"operation {i} {op}: {res.split(':', 1)[1]}", None
         if res == "refused":
@@ -384,7 +470,8 @@ def random_op(rng, profile="mixed"):
         # several subroutines blocked in a wait at once, finishing in any order, while others start
         k = rng.choice(["init", "init", "stop", "alloc", "free", "write", "write", "recv", "recv", "recvf", "deliver", "deliver", "early"])
     else:
-        k = rng.choice(["init", "stop", "alloc", "alloc", "free", "free", "write", "write", "recv", "deliver", "deliver", "early"])
+        k = rng.choice(["init", "stop", "alloc", "alloc", "free", "free", "write", "write", "recv", "deliver", "deliver", "early"] +
+                       (["recvnw", "recvs"] if rng.random() < 0.15 else []))
     if k == "init":
         return ("init", node, app, rng.choice([1, 2, 3, 4]))
     if k in ("stop",):
@@ -413,6 +500,15 @@ def cases(ctx):
     if ctx.shard == 0:
         yield {"kind": "walk", "ops": [["init", "n0", 0, 2], ["alloc", "n0", 0, 1], ["write", "n0", 0, 3], ["stop", "n0", 0],
                                        ["init", "n0", 0, 2], ["alloc", "n0", 0, 1], ["stop", "n0", 0], ["init", "n0", 0, 1]]}
+        # responses whose hand-over fails loudly: (a) the qubit is mapped, then storing the information fails - the response
+        # must not be replayed into the next request of that socket; (b) the request names a qubit outside the unit module /
+        # outlived its subroutine - the other application's pair must still arrive
+        yield {"kind": "walk", "ops": [["init", "n0", 0, 3], ["recvs", "n0", 0, 0], ["deliver", "n0"], ["recvs", "n0", 0, 1], ["deliver", "n0"],
+                                       ["alloc", "n0", 0, 2], ["stop", "n0", 0], ["init", "n0", 0, 1]]}
+        yield {"kind": "walk", "ops": [["init", "n0", 0, 2], ["init", "n0", 1, 1], ["recv", "n0", 0, 3], ["recv", "n0", 1, 0], ["deliver", "n0"],
+                                       ["deliver", "n0"], ["write", "n0", 1, 1], ["stop", "n0", 1], ["init", "n0", 1, 2]]}
+        yield {"kind": "walk", "ops": [["init", "n0", 0, 1], ["init", "n0", 1, 1], ["recvnw", "n0", 0, 0], ["recv", "n0", 1, 0], ["deliver", "n0"],
+                                       ["deliver", "n0"], ["write", "n0", 1, 1], ["stop", "n0", 0], ["early", "n0", 1, 0], ["recv", "n0", 1, 0]]}
 
 
 def _sdk_walk(ctx, case):
@@ -493,7 +589,7 @@ def run_case(ctx, case):
     if case["kind"] == "walk":
         err, info = run_history(ctx, [tuple(o) for o in case["ops"]])
         if err:
-            ctx.fail(case, err)
+            ctx.fail(case, err, key=(info or {}).get("key"))
             return ctx.case({"kind": "walk", "digest": f"{h64(case['ops']):016x}", "first": case["ops"][:8]}, True)
         ctx.count("abstract_states_in_walks", len(info["states"]))
         small = {"kind": "walk", "n": len(case["ops"]), "digest": f"{h64(case['ops']):016x}", "first": case["ops"][:8]}
@@ -519,7 +615,7 @@ def run_case(ctx, case):
                 hv = h64(cand)
                 ctx.all_hashes.add(hv)
                 if err:
-                    ctx.fail({"kind": "walk", "ops": cand}, err)
+                    ctx.fail({"kind": "walk", "ops": cand}, err, key=(info or {}).get("key"))
                     if ctx.too_many():
                         return ctx.case(case, True)
                     continue
